@@ -269,6 +269,9 @@ class CircuitCompositeOperation(ICircuitCompositeOperation):
             graph=self._circuit_graph,
             operation=operation,
         )
+        # Operations of a placed composite-operation are either all relative to it or all carry its relation link
+        if self.has_relation and not operation.has_relation:
+            self._apply_relation_link_head()
         return self
 
     def copy(self, relation_transfer_lookup: Optional[Dict[ICircuitOperation, ICircuitOperation]] = None) -> 'CircuitCompositeOperation':
@@ -333,16 +336,20 @@ class CircuitCompositeOperation(ICircuitCompositeOperation):
         :return: Array-like of decomposed operations.
         """
         result: List[ICircuitOperation] = []
+        self._apply_relation_link_head()
         for node in self._circuit_graph.get_node_iterator():
-            # Apply relation-link head (Important for nested composite-operations)
+            # Extend decomposed operation list
+            result.extend(node.operation.decomposed_operations())
+        return result
+
+    def _apply_relation_link_head(self) -> None:
+        """Applies relation-link head (Important for nested composite-operations)."""
+        for node in self._circuit_graph.get_node_iterator():
             if not node.operation.has_relation and self.has_relation:
                 # Hand over an own (duplicate) link instance, sharing the link object would make a nested composite
                 # operation equal (by value) to its parent and siblings, which confuses the transfer lookup used for copying.
                 node.operation.relation_link = self.relation_link.copy(relation_transfer_lookup=_IdentityTransferLookup())
                 clear_start_time_cache()  # Relation link changes
-            # Extend decomposed operation list
-            result.extend(node.operation.decomposed_operations())
-        return result
 
     def apply_flatten_to_self(self) -> ICircuitOperation:
         """
